@@ -81,6 +81,7 @@ BStep(s, o) ==
     [] o.op = "RST" -> BReset(s)
     [] o.op = "TK"  -> BTake(s)
     [] o.op = "ACC" -> s
+    [] o.op = "GR"  -> s                \* Grow(n), n >= 0: capacity only (BufferMem), the value-level state is unchanged
 
 RECURSIVE BRun(_, _)
 BRun(s, ops) == IF ops = <<>> THEN s ELSE BRun(BStep(s, Head(ops)), Tail(ops))
